@@ -2,6 +2,7 @@
 """mkrefactor.py <id> <file>: prompt + scratch worktree for a behaviour-preserving refactoring (used to test that the checks stay silent, and still build, on code where every property holds)."""
 import os, subprocess, sys
 wid, target = sys.argv[1], sys.argv[2]
+focus = ("\nFOCUS for this one: " + sys.argv[3] + "\n") if len(sys.argv) > 3 else ""
 wt = '/tmp/wt/' + wid
 if not os.path.exists(wt):
     subprocess.check_call(['git', '-C', '/repo', 'worktree', 'add', '--detach', wt, 'HEAD'], stdout=subprocess.DEVNULL, stderr=subprocess.DEVNULL)
@@ -14,7 +15,7 @@ Every shell command needs this environment first (no network is available):
 
 YOUR TASK: refactor the non-test Go source file {target} (and, only if the refactoring needs it, its direct callers) the way a maintainer tidying up the code would, WITHOUT changing anything observable: the same packets with the same contents to the same destinations at the same times, the same log lines (text and order), the same metric names/labels/values, the same error values (text AND wrapping: errors.Is/As must give the same answers), the same goroutine structure as far as it can be observed through blocking behaviour and ordering, the same calls into the operating system (sysctl reads/writes, netlink requests, socket calls) in the same order and number.
 Make it substantial (roughly 40-150 changed lines), mixing several of: extracting helper functions or methods, inlining small helpers, renaming unexported identifiers (functions, methods, fields, variables), changing signatures of unexported functions (parameter order, passing a struct instead of several arguments, returning named results), replacing a switch by if/else or vice versa, early returns instead of nesting, reordering declarations and independent statements, replacing a hand-written loop by a slices/maps helper with identical semantics, moving code between files of the same package, adding or rewording comments. Do NOT touch files whose name starts with verif_ (build-tag hooks), do not change exported API used by other packages unless you update all users, do not edit existing tests except where a renamed unexported identifier forces a mechanical update.
-The project must still build (`go build ./...`, also `go build -tags verif ./...`) and the existing test suite must still pass: `go test -vet=off -count=1 ./...` (ignore internal/netstate TestIntegrationWatcherWatch, which always fails in this sandbox, and tests that skip themselves).
+{focus}The project must still build (`go build ./...`, also `go build -tags verif ./...`) and the existing test suite must still pass: `go test -vet=off -count=1 ./...` (ignore internal/netstate TestIntegrationWatcherWatch, which always fails in this sandbox, and tests that skip themselves).
 
 DELIVERABLES inside {wt}: the change left applied in the working tree (uncommitted) and saved with `git diff > {wt}/patch.diff`; {wt}/meta.json with keys "summary" (what you refactored, 2-3 sentences) and "files" (list). NEVER use `git stash` (it is shared with other people's worktrees). Finish by printing `git diff --stat` and meta.json."""
 open('/tmp/wt/_prompts/%s.txt' % wid, 'w').write(txt)
